@@ -121,6 +121,12 @@ NUM_DOCS = [
     [1, 2], {"0": 1, "1": 2}, [[1], {"0": 2}], {"0": [1, 2], "-1": {"0": 3}}, {"a": [{"1": 1}, [0, 1]], "1": "x"},
     [{"0": 0, "length": 1}, [9]], {"": 1, " ": 2, "*": 3, "0:1": 4, "a,b": 5, "..": 6}, "01", 0,
 ]
+import collections as _c
+
+NUM_DOCS += [
+    _c.OrderedDict([("0", [1, 2]), ("a", _c.OrderedDict([("0", 3), ("b", [_c.OrderedDict([("1", 4)])])]))]),
+    [_c.OrderedDict([("a", [5, 6])]), [7, _c.OrderedDict()]],
+]
 NUM_SELS = ["'0'", "'1'", "'-1'", "0", "1", "-1", "'length'", "''", "' '", "'*'", "'0:1'", "'a,b'", "'..'", "*", "0:1"]
 
 
@@ -138,6 +144,10 @@ def compare(nodes, expected, doc):
 
 def check_case(case):
     """case: {"query": text, "doc": jsonable}"""
+    if "ordered_dict_doc" in case:
+        from mc.core import diff as _diff
+        d = _diff.diff(case["query"], NUM_DOCS[case["ordered_dict_doc"]])
+        return violation(d[0], case, d[1], d[2], "wrong") if d else None
     doc = impl.unjsonable(case["doc"])
     r = rp.parse(case["query"])
     assert r.status == "ok", case
@@ -240,6 +250,20 @@ def run_shard(desc):
                                 sh.violation(v)
                             else:
                                 sh.nontrivial += 1 if impl.jp.find(text, doc) else 0
+        # objects that are OrderedDicts (json.load(object_pairs_hook=OrderedDict)): compared directly,
+        # without the JSON round trip of check_case
+        from mc.core import diff as _diff
+        for doc in NUM_DOCS[-2:]:
+            for _, t1 in SEGMENTS:
+                for t2 in [""] + [t for _, t in SEGMENTS]:
+                    text = "$" + t1 + t2
+                    sh.states += 1
+                    sh.transitions += 1
+                    sh.traces += 1
+                    sh.evaluations += 1
+                    d = _diff.diff(text, doc)
+                    if d:
+                        sh.violation(violation(d[0], {"query": text, "ordered_dict_doc": NUM_DOCS.index(doc)}, d[1], d[2], "wrong"))
         # the bare root query: exactly the root node, whatever the document is
         from mc.gen import docs as _gd
         for doc in get_docs(3) + _gd.kinds() + NUM_DOCS:
